@@ -61,10 +61,11 @@ async def run(
 
     # Start simulator processes
     processes: List[asyncio.Task[None]] = []
+    rt_start = perf_counter()
     for sim in world.sims.values():
         # The progress of a simulator may be advanced by another
         # simulator's process before its own process has started.
-        sim.rt_start = perf_counter()
+        sim.rt_start = rt_start
     for sim in world.sims.values():
         process = world.loop.create_task(
             sim_process(world, sim, until, rt_factor, rt_strict, lazy_stepping),
@@ -98,7 +99,12 @@ async def sim_process(
     Coroutine running the simulator *sim*.
     """
     sim.started = True
-    sim.rt_start = rt_start = perf_counter()
+    if not hasattr(sim, "rt_start"):
+        sim.rt_start = perf_counter()
+    # (Normally, rt_start has been set in run(). Resetting it here
+    # would move the real-time progress backwards if another simulator
+    # has already blocked the event loop for a while.)
+    rt_start = sim.rt_start
 
     try:
         advance_progress(sim, world)
